@@ -28,6 +28,11 @@ def phys(ip: DimInterp):
 
 def check(ctx):
     repo = ctx.repo
+    ctx.rule("R08.10", "the terminal data the solver reads on the device is selected without an absolute tolerance in length units (membership radius 0)", 2)
+    from .c13 import no_absolute_length_tolerance
+    no_absolute_length_tolerance(ctx, "R08.10", "the same physical device stated in another length unit (mm instead of um) gets other terminal sites, edges and "
+                                                "contact lengths - 1e-3 length units is a nanometre in um and a micrometre in mm - so it solves a different dimensionless "
+                                                "problem")
     ctx.rule("R08.9", "in the post-processing functions that take `units`, a quantity is stripped of its units (`.magnitude`) only after it was converted "
                       "to explicit units on every path (flow-sensitive reaching definitions; two confirmed by-construction exceptions)", 12)
     ctx.rule("R08.8", "the unit labels of a Solution (field_units, current_units) are stored when it is created; they are not read through "
